@@ -29,15 +29,17 @@ var (
 	zzSwFirstSec  int64 // first clock reading of the step under test
 	zzSwHaveFirst bool
 	zzSwTickPending = true
+	zzSwFineClock   bool // every reading may advance (thorough tier, selected entries)
 	zzSwRand                  [][]byte
 	zzSwErrAuth               = errors.New("zz: authentication failed")
 )
 
 func zzSwNow() time.Time {
 	// whole seconds only in this file (nanosecond readings are exercised in rrc.go); arbitrary, non-decreasing.
-	// Quick tier: the clock moves only when the harness calls zzSwTick (between the phases of a scenario);
-	// thorough tier: every single reading may be later than the previous one.
-	if zzsymParam("ALLDIMS") == 1 || zzSwTickPending {
+	// Normally the clock moves only when the harness calls zzSwTick (between the phases of a scenario); in the
+	// thorough tier zzAddrSwitchRRCRecord and zzMigrationScenario let every single reading be later than the
+	// previous one (zzSwFineClock).
+	if zzSwFineClock || zzSwTickPending {
 		s := zzsymI64("now_sec")
 		zzsymAssume(zzsymAnd(s >= zzSwSec, s < 1<<40))
 		zzSwSec = s
@@ -324,7 +326,13 @@ func zzSwStep(kinds []int, rrcNeg bool, epoch uint16, fromActive bool) {
 		zzsymAssert(!fromActive, "challenge_only_to_new_address")
 		zzsymAssert(zzsymAnd(authentic, notReplay), "challenge_needs_authentic_fresh_record")
 		zzsymAssert(zzsymAnd(useCID, zzsymEqBytes(wireCID, localCID)), "challenge_needs_record_with_own_cid")
-		zzsymAssert(newest, "challenge_only_for_newest_record")
+		if rel == 6 {
+			// KNOWN DEFECT (own label): a delayed record with sequence number 0 is reported as "latest" by
+			// replaydetector.acceptSeq (`latest := seq == 0`) although a higher number was accepted before
+			zzsymAssert(newest, "stale_record_with_sequence_number_zero_is_not_newest")
+		} else {
+			zzsymAssert(newest, "challenge_only_for_newest_record")
+		}
 	}
 
 	// ---- (3) amplification towards the unvalidated address within this step
@@ -357,7 +365,8 @@ func zzSwStep(kinds []int, rrcNeg bool, epoch uint16, fromActive bool) {
 // validated peer address A. One record arrives: its sequence number is newer than, equal to, just below, at the edge of or beyond
 // the 64-wide replay window around one arbitrary earlier accepted number (or the window is empty), plain or tls12_cid
 // layout with arbitrary CID bytes, authentication verdict arbitrary, clock arbitrary (non-decreasing whole
-// seconds; quick tier: time passes between the phases, thorough tier: between any two readings). For the new address B the path manager is either empty or in the state its own API produces
+// seconds; time passes between the phases of a scenario; thorough tier of zzAddrSwitchRRCRecord and
+// zzMigrationScenario: between any two readings). For the new address B the path manager is either empty or in the state its own API produces
 // after r bytes from B, w bytes granted to B and optionally a started challenge.
 
 // A return-routability record (msg_type and cookie arbitrary) arrives from the new address B in epoch 1, RRC
@@ -368,6 +377,7 @@ func zzSwStep(kinds []int, rrcNeg bool, epoch uint16, fromActive bool) {
 //
 //symgo:entry covers=address_switched,address_kept,challenge_sent,sent_to_candidate,record_rejected,stale_accepted
 func zzAddrSwitchRRCRecord() {
+	zzSwFineClock = zzsymParam("ALLDIMS") == 1
 	zzSwStep([]int{1}, true, 1, false)
 }
 
@@ -377,7 +387,11 @@ func zzAddrSwitchRRCRecord() {
 //
 //symgo:entry covers=address_kept,challenge_sent,sent_to_candidate,record_rejected,stale_accepted
 func zzAddrSwitchOtherRecords() {
-	zzSwStep([]int{0, 2, 3, 4, 5}, true, 1, false)
+	kinds := []int{0, 2, 3} // quick tier: application data, alert, handshake; thorough adds change_cipher_spec, ACK
+	if zzsymParam("ALLDIMS") == 1 {
+		kinds = []int{0, 2, 3, 4, 5}
+	}
+	zzSwStep(kinds, true, 1, false)
 }
 
 // All record types including return-routability messages from the new address B, RRC NOT negotiated.
@@ -445,6 +459,7 @@ func zzSwChallengeTo(pc *zzTxPC, i0 int, addr net.Addr, nRemote int) (cookie []b
 //
 //symgo:entry covers=mig_switched_b,mig_switched_c,mig_wrong_source,mig_wrong_cookie,mig_replayed,mig_forged,mig_late,mig_replay_after_switch_refused,mig_stolen_cookie_refused
 func zzMigrationScenario() {
+	zzSwFineClock = zzsymParam("ALLDIMS") == 1
 	nLocal, nRemote := zzsymParam("NLCID"), 1
 	c, pc, suite, localCID := zzSwConn(nLocal, nRemote, true)
 	suite.authOK = true
@@ -463,7 +478,7 @@ func zzMigrationScenario() {
 	chB, okB, n := zzSwChallengeTo(pc, 0, zzSwAddrB, nRemote)
 	toB += n
 	tB := zzSwSec
-	if zzsymParam("ALLDIMS") == 0 {
+	if !zzSwFineClock {
 		zzsymAssert(okB, "newest_cid_record_from_new_address_is_challenged")
 	} else if !okB {
 		return // thorough tier: a second may pass between creating and sending the challenge; then none is sent
@@ -489,7 +504,7 @@ func zzMigrationScenario() {
 		chC, okC, n = zzSwChallengeTo(pc, w0, zzSwAddrC, nRemote)
 		toC += n
 		tC = zzSwSec
-		if zzsymParam("ALLDIMS") == 0 {
+		if !zzSwFineClock {
 			zzsymAssert(okC, "newest_cid_record_from_new_address_is_challenged")
 		} else if !okC {
 			return
@@ -566,7 +581,7 @@ func zzMigrationScenario() {
 		case src == zzSwAddrB && sameB, src == zzSwAddrC && sameC:
 			// the only remaining reason is lateness (exact only with the phase clock of the quick tier, where
 			// the whole step sees one instant)
-			if zzsymParam("ALLDIMS") == 0 {
+			if !zzSwFineClock {
 				if src == zzSwAddrB {
 					zzsymAssert(zzSwHaveFirst && tResp >= tB+1, "honest_response_in_time_switches")
 				} else {
@@ -610,36 +625,3 @@ func zzMigrationScenario() {
 	}
 }
 
-// ---- TEMPORARY MUTANTS ----
-//symgo:replace (github.com/pion/dtls/v3.returnRoutabilityConn).HandleCandidate zzMutHandleCandidate
-//symgo:replace (github.com/pion/dtls/v3.returnRoutabilityConn).HandleRecord zzMutHandleRecord
-
-func zzMutHandleCandidate(c returnRoutabilityConn, ctx context.Context, enabled, hasCID, latest bool, addr net.Addr) {
-	// MUTANT: "latest" ignored
-	cookie, ok, err := c.conn.rrc.Start(enabled && hasCID, addr, c.conn.RemoteAddr())
-	if err == nil && ok {
-		err = c.WriteRRC(ctx, addr, protocol.ReturnRoutabilityCheckPathChallenge, cookie)
-		if err != nil {
-			c.conn.rrc.Cancel(addr, cookie)
-		}
-	}
-}
-
-func zzMutHandleRecord(c returnRoutabilityConn, ctx context.Context, message *protocol.ReturnRoutabilityCheck,
-	prepared incomingPacketState, addr net.Addr) (bool, packetOutcome, error) {
-	if prepared.header.Epoch == 0 || !dtlsstate.CommonState(c.conn.state).RRCNegotiated {
-		return false, packetOutcome{}, zzSwErrAuth
-	}
-	isLatestSeqNum := prepared.markPacketAsValid()
-	switch message.MessageType {
-	case protocol.ReturnRoutabilityCheckPathChallenge:
-		_ = c.WriteRRC(ctx, addr, protocol.ReturnRoutabilityCheckPathResponse, message.Cookie)
-	case protocol.ReturnRoutabilityCheckPathResponse:
-		c.conn.rrc.HandleResponse(addr, message.Cookie) // MUTANT: verdict ignored
-		c.conn.rAddr = addr
-		isLatestSeqNum = false
-	default:
-		isLatestSeqNum = false
-	}
-	return isLatestSeqNum, packetOutcome{}, nil
-}
